@@ -1773,7 +1773,13 @@ impl<'a> Parser<'a> {
         let previous = s.previous.clone();
         let name = s.identifier_constant(&previous);
 
-        let instance_local_name = s.compiler().locals[0].name.clone();
+        // The receiver is slot zero of the enclosing method, which a closure nested in it captures by name.
+        let instance_local_name = s
+            .compilers
+            .iter()
+            .rev()
+            .find(|c| c.kind != FunctionKind::Function)
+            .map_or_else(String::new, |c| c.locals[0].name.clone());
         s.named_variable(Token::from_string(instance_local_name.as_str()), false);
         if s.match_token(TokenKind::LeftParen) {
             let arg_count = s.argument_list(
